@@ -97,8 +97,9 @@ def hosvd(  # noqa: PLR0912,PLR0913,PLR0915
 
     # Main Loop
     factor_matrices = [np.empty(1)] * d
-    # Copy input tensor, shrinks every step for sequential
-    Y = input_tensor.copy()
+    # Copy input tensor (in double precision: a logical tensor has no matricisation,
+    # tenmat rejects bool data), shrinks every step for sequential
+    Y = ttb.tensor(input_tensor.double(), copy=False)
 
     for k in dimorder:
         # Compute Gram matrix
